@@ -73,6 +73,15 @@ theorem writer_bytes_exact (ops : List Lemmas.Codec.Op) (w : Writer) (hwf : WF w
     (run w ops).2.1 ++ pendingBytes (run w ops).1 = pendingBytes w ++ (run w ops).2.2 :=
   Lemmas.Codec.writer_bytes_exact ops w hwf hct hmf
 
+/-- **closing never drops bytes**: over any number of `shutdown` polls with ANY write scripts, the
+    transport's `poll_shutdown` is reached only after the transport has accepted exactly the octets
+    that were pending when closing started, all of them and in order. -/
+theorem closing_drops_nothing (fuel : Nat) (scs : List (List (Option Nat))) (w : Writer) (hwf : WF w)
+    (hmf : 0 < w.maxFrame) (hfuel : enoughFuel fuel w)
+    (h : (Writer.shutdownRun fuel w false scs []).2 = true) :
+    (Writer.shutdownRun fuel w false scs []).1 = pendingBytes w := by
+  simpa using shutdownRun_complete fuel scs w [] hwf hmf hfuel h
+
 /-- **no emitted DATA payload exceeds the peer's max frame size**: a larger one is refused -/
 theorem tx_within_max_frame_size (w w' : Writer) (sid : Nat) (payload : Bytes) (eos : Bool) (pad : Option Nat)
     (h : w.buffer (.simple (.data sid payload eos pad)) = (w', .ok)) : payload.length ≤ w.maxFrame :=
